@@ -111,7 +111,7 @@ Fixpoint pp_stmt (s : stmt) : list tok :=
   | SStruct sp e path fields rest body p =>
       tpl sp "# [ allow ( unreachable_patterns ) ] match & $0 { $1 { $2 $3 } => { $4 } , _ => { $5 } }"
           [pp_vexpr e; p_toks path; sep_by (comma sp) (map pp_field_name fields);
-           (if rest then tpl SCall ", .." [] else []);
+           (if rest then match fields with [] => tpl SCall ".." [] | _ => tpl SCall ", .." [] end else []);
            flat_map pp_stmt body; pp_push p]
   | SSeq body => flat_map pp_stmt body
   | STuple e binders body =>
